@@ -159,13 +159,25 @@ def _real_hmac512(k, m):
     return _hmac.new(k, m, hashlib.sha512).digest()
 
 
+def _opaque_hash(name, outbytes, b):
+    from . import text as _text
+    f = z3.Function("%s_o" % name, _text.OBytes, z3.BitVecSort(8 * outbytes))
+    return bytes_from_bv(f(b.e), outbytes)
+
+
 def sha256(b):
+    from . import text as _text
+    if isinstance(b, _text.SxOpaqueBytes):
+        return _opaque_hash("sha256", 32, b)
     r = uf_hash("sha256", 32, b, real=_real_sha256)
     _log("sha256", b, r)
     return r
 
 
 def sha512(b):
+    from . import text as _text
+    if isinstance(b, _text.SxOpaqueBytes):
+        return _opaque_hash("sha512", 64, b)
     r = uf_hash("sha512", 64, b, real=_real_sha512)
     _log("sha512", b, r)
     return r
